@@ -2203,18 +2203,9 @@ func (p *PikeVM) SearchWithSlotTableCapturesAt(haystack []byte, at int) *MatchWi
 
 	numGroups := p.nfa.CaptureCount()
 
-	if at == len(haystack) {
-		if p.matchesEmptyAt(haystack, at) {
-			return p.buildCapturesFromSlots(nil, at, at)
-		}
-		return nil
-	}
-	if len(haystack) == 0 {
-		if p.matchesEmpty() {
-			return p.buildCapturesFromSlots(nil, 0, 0)
-		}
-		return nil
-	}
+	// No shortcut for at == len(haystack): an empty match at the end still has
+	// capture groups to report ((x*)? on "" is [0 0 0 0], not [0 0 -1 -1]); the
+	// general search below handles that position like any other.
 	_ = numGroups
 
 	if p.nfa.IsAnchored() {
